@@ -62,7 +62,9 @@ RULE = (
     "registration order) x first failing start-up step (context, on_startup handler, site bind, or none; for run_app "
     "also a signal during start-up) x set of failing teardown steps (context cleanup code, on_shutdown, on_cleanup) x "
     "entry point. Part 2 run = 2-7 connections in different phases x shutdown_timeout x on_shutdown behaviour x late "
-    "connection / late request x entry point x shutdown instant (loop step or virtual time) x segmentation/latency. "
+    "connection / late request x entry point x shutdown instant (loop step or virtual time) x segmentation/latency; "
+    "12 % of them place 1-2 requests (plain / with a request queued behind / streaming) so that they are in flight at "
+    "the shutdown instant and end while a slow on_shutdown handler is still running. "
     "Non-trivial: part 1 - at least two contexts started and at least one callback raised; part 2 - the shutdown fired "
     "while at least one handler was running and at least one other connection was idle or half-received. "
     "Distinct = interleaving signature."
@@ -73,7 +75,8 @@ ENUM_RULE = (
     "site bind, none) x every subset of failing context-cleanup codes (flags on contexts that cannot have started are "
     "dropped) x every subset of <=2 (thorough: <=3) failing on_shutdown/on_cleanup handlers x {AppRunner, run_app}; "
     "plus 5-context shapes with every subset of <=3 failing cleanup codes (thorough: every subset). Part 2: fixed "
-    "multi-connection baselines (7 in quick) under an all-zero choice tape x the shutdown instant before every loop "
+    "multi-connection baselines (9 in quick, two of them with requests that end while slow on_shutdown handlers are "
+    "still running) under an all-zero choice tape x the shutdown instant before every loop "
     "step from just before the first client connects up to the horizon x {AppRunner.cleanup(), SIGTERM to run_app}."
 )
 COMPONENTS = {
@@ -240,7 +243,17 @@ def _scenes(tier):
              conns=[_conn("idle", 1), _conn("sleep", 2, ms=3000), _conn("sleep", 3, ms=8500), _conn("sleep", 4, ms=-1),
                     _conn("ws_mute", 5), _conn("stream", 6, n=5, gap=1500)],
              late_conn=2, late_req=None, horizon=20)
-    out = [("A", a, 1), ("A2", a2, 1), ("B", b, 1), ("B2", b2, 1), ("C", c, 1), ("C2", c2, 1), ("D", d, 1)]
+    # requests in flight at the shutdown instant that complete while the on_shutdown handlers are still running
+    # (between Server.pre_shutdown() and Server.shutdown()): plain, with a second request queued behind, streaming
+    wn = dict(common, T=0.2, on_shutdown="slow:30", hc=False,
+              conns=[_conn("idle", 1), _conn("sleep", 2, ms=12), _conn("pipe", 3, ms=8), _conn("stream", 4, n=3, gap=3),
+                     _conn("sleep", 5, ms=-1)],
+              late_conn=2, late_req=[1, 14], horizon=10)
+    wn2 = dict(wn, T=0.05, hc=True, conns=[_conn("pipe", 1, ms=6), _conn("sleep", 2, ms=20), _conn("idle2", 1),
+                                            _conn("sleep", 3, ms=45), _conn("body", 2, rest=9)],
+               late_conn=None, late_req=[1, 22], horizon=8)
+    out = [("A", a, 1), ("A2", a2, 1), ("B", b, 1), ("B2", b2, 1), ("C", c, 1), ("C2", c2, 1), ("D", d, 1),
+           ("W", wn, 1), ("W2", wn2, 1)]
     if tier == "thorough":
         e = dict(a, T=1.0, on_shutdown="none", conns=a["conns"] + [_conn("body", 8, rest=300), _conn("pipe", 9, ms=1500)],
                  horizon=400)
@@ -291,13 +304,50 @@ def _gen_part2(rng):
     idle_idx = [i for i, c in enumerate(conns) if c["kind"] in ("idle", "idle2", "sleep", "fresh")]
     mode = rng.random()
     shutdown = {"step": rng.randint(5, 110)} if mode < 0.4 else {"t": rng.randint(0, 30)}
-    return {"part": 2, "entry": rng.choice(["runner", "run_app"]), "scene": "rand", "T": T,
-            "on_shutdown": rng.choice(["none", "none", "close_ws", "close_ws", "slow:%d" % rng.choice([5, 30, ms_T])]),
-            "hc": rng.random() < 0.3, "zero_tape": False, "lat": rng.choice([0, 0, 1, 3]),
-            "policy": rng.choice(["whole", "whole", "small", "mixed"]),
-            "conns": conns, "late_conn": rng.choice([None, 0, 1, 3, 10]),
-            "late_req": [rng.choice(idle_idx), rng.choice([0, 1, 2, 10])] if idle_idx and rng.random() < 0.5 else None,
-            "horizon": 40, "shutdown": shutdown}
+    scn = {"part": 2, "entry": rng.choice(["runner", "run_app"]), "scene": "rand", "T": T,
+           "on_shutdown": rng.choice(["none", "none", "close_ws", "close_ws", "slow:%d" % rng.choice([5, 30, ms_T])]),
+           "hc": rng.random() < 0.3, "zero_tape": False, "lat": rng.choice([0, 0, 1, 3]),
+           "policy": rng.choice(["whole", "whole", "small", "mixed"]),
+           "conns": conns, "late_conn": rng.choice([None, 0, 1, 3, 10]),
+           "late_req": [rng.choice(idle_idx), rng.choice([0, 1, 2, 10])] if idle_idx and rng.random() < 0.5 else None,
+           "horizon": 40, "shutdown": shutdown}
+    if rng.random() < 0.12:
+        _window_feature(rng, scn)
+    return scn
+
+
+def _window_feature(rng, scn):
+    """Requests that are in flight when the shutdown begins and end while the on_shutdown handlers are still
+    running, i.e. between the graceful close of the connections and their forced shutdown: on_shutdown takes w ms
+    from the shutdown instant ts, and 1-2 added connections carry a request (plain, with a second one queued
+    behind it, or streaming) that starts before ts and ends inside (ts, ts + w); sometimes the client sends a
+    further request on such a connection after the first has ended, still inside the window."""
+    slack = 2 * scn["lat"]  # a request may start up to this many ms after its connection was opened
+    w = rng.choice([x for x in (6, 12, 30, 60) if x >= 2 * slack + 6])
+    ts = rng.randint(3 + slack, 14 + slack)
+    scn["on_shutdown"] = "slow:%d" % w
+    scn["shutdown"] = {"t": ts}
+    scn["feature"] = "window"
+    conns = scn["conns"] = scn["conns"][: rng.choice([0, 1, 2, 4])]
+    if scn["late_req"] is not None and scn["late_req"][0] >= len(conns):
+        scn["late_req"] = None
+    ends = []
+    for _ in range(rng.choice([1, 1, 2])):
+        tc = rng.randint(1, ts - 1 - slack)
+        end = rng.randint(ts + 1, ts + w - 2 - slack)  # nominal end tc + ms; the real one is at most slack later
+        k = rng.choice(["sleep", "sleep", "pipe", "pipe", "stream"])
+        if k == "stream":
+            n = rng.choice([2, 3])
+            gap = max(1, (end - tc) // n)
+            conns.append(_conn(k, tc, n=n, gap=gap))
+            end = tc + n * gap
+        else:
+            conns.append(_conn(k, tc, ms=end - tc))
+        ends.append((len(conns) - 1, end, k))
+    i, end, k = rng.choice(ends)
+    lo, hi = end + slack + 1, ts + w - 1 - scn["lat"]
+    if k == "sleep" and rng.random() < 0.5 and lo <= hi:
+        scn["late_req"] = [i, rng.randint(lo, hi) - ts]
 
 
 # =========================================================================== interface
@@ -379,6 +429,13 @@ def shrink(scn):
         yield dict(scn, policy="whole")
     if scn["on_shutdown"] != "none":
         yield dict(scn, on_shutdown="none")
+    if scn["on_shutdown"].startswith("slow:") and int(scn["on_shutdown"][5:]) > 4:
+        yield dict(scn, on_shutdown="slow:%d" % (int(scn["on_shutdown"][5:]) // 2))
+    for i, c in enumerate(conns):
+        if c["kind"] == "pipe":  # without the request queued behind
+            yield dict(scn, conns=conns[:i] + [_conn("sleep", c["t"], ms=c["ms"])] + conns[i + 1:])
+        elif c["kind"] == "stream":
+            yield dict(scn, conns=conns[:i] + [_conn("sleep", c["t"], ms=c["n"] * c["gap"])] + conns[i + 1:])
     if scn["hc"]:
         yield dict(scn, hc=False)
     for i, c in enumerate(conns):
@@ -838,7 +895,7 @@ def _run_part2(scn, ch, log):
         @web.middleware
         async def mw(request, handler):
             ci = int(request.headers.get("X-Conn", "-1"))
-            rec = {"conn": ci, "path": request.path, "t0": loop.time(), "s0": loop.steps, "t1": None, "out": None,
+            rec = {"conn": ci, "path": request.path, "t0": loop.time(), "s0": loop.steps, "t1": None, "s1": None, "out": None,
                    "j": sum(1 for r in recs if r["conn"] == ci)}
             recs.append(rec)
             loop.note("h_start", f"{ci}:{request.path}")
@@ -853,7 +910,7 @@ def _run_part2(scn, ch, log):
                 rec["out"] = "exc:" + type(e).__name__
                 raise
             finally:
-                rec["t1"] = loop.time()
+                rec["t1"], rec["s1"] = loop.time(), loop.steps
                 loop.note("h_end", f"{ci}:{rec['out']}")
 
         async def fast(request):
@@ -1141,6 +1198,19 @@ def _run_part2(scn, ch, log):
                     violate("no_new_request", f"{entry}:handled_after_on_shutdown:{m['kind']}",
                             f"request #{r['j']} of connection {r['conn']} ({r['path']}) was delivered at step {at} and "
                             f"handled at step {r['s0']}, both after on_shutdown (step {mk['step']}); {ctxd}")
+            # ... nor a request that was queued behind one in flight: once a request of a connection has ended after
+            # on_shutdown, that connection must not start handling another one, whenever its bytes arrived
+            for r in recs:
+                m = conns.get(r["conn"])
+                if m is None or r["s0"] <= mk["step"] or r["j"] < 1:
+                    continue
+                prev = [p for p in recs if p["conn"] == r["conn"] and p["j"] == r["j"] - 1]
+                if prev and prev[0]["s1"] is not None and prev[0]["s1"] > mk["step"]:
+                    was = "in_flight" if prev[0]["s0"] <= mk["step"] else "started_late"
+                    violate("no_new_request", f"{entry}:next_request_handled_after_on_shutdown:{was}:{m['kind']}",
+                            f"connection {r['conn']}: request #{r['j'] - 1} ({prev[0]['path']}) ended at step {prev[0]['s1']} "
+                            f"(t={prev[0]['t1']:.4f}), after on_shutdown (step {mk['step']}), and the connection then went on "
+                            f"to handle request #{r['j']} ({r['path']}) at step {r['s0']} (t={r['t0']:.4f}); {ctxd}")
             # idle keep-alive connections closed at once
             for ci, sn in mk["snap"].items():
                 if not sn["idle"]:
@@ -1150,6 +1220,24 @@ def _run_part2(scn, ch, log):
                     violate("idle_closed_at_once", f"{entry}:idle_keepalive_closed_late",
                             f"connection {ci} was idle keep-alive at on_shutdown (t={mk['t']:.4f}) but its transport was "
                             f"closed at {ct} (on_shutdown delivered by {st['hooks_done']:.4f}, timeout {T}); {ctxd}")
+            # ... and so are connections that become idle while the shutdown is going on: the request that was in
+            # flight returned normally after on_shutdown began -> its connection is closed at that instant (at the
+            # latest when on_shutdown has been delivered, the same latitude as for connections idle from the start)
+            for r in recs:
+                m = conns.get(r["conn"])
+                if m is None or m["gone"] or m["ws"] or r["out"] != "returned" or r["s1"] <= mk["step"]:
+                    continue
+                if any(p["conn"] == r["conn"] and p["j"] > r["j"] for p in recs):
+                    continue  # judged on the last request the connection handled
+                ct = m["obs"]["close_t"]
+                due = max(r["t1"], st["hooks_done"])
+                if ct is None or ct > due + eps:
+                    when = "during_on_shutdown" if r["t1"] <= st["hooks_done"] + eps else "during_grace"
+                    violate("idle_closed_at_once", f"{entry}:idle_after_inflight_closed_late:{when}",
+                            f"connection {r['conn']} ({m['kind']}): its request {r['path']} was being handled during shutdown "
+                            f"and returned at t={r['t1']:.4f} (step {r['s1']}), leaving the connection idle, but the transport "
+                            f"was closed at {ct} (on_shutdown began {mk['t']:.4f}, delivered by {st['hooks_done']:.4f}, "
+                            f"timeout {T}); {ctxd}")
             # handlers: grace period honoured, cancel deadline, responses
             for r in recs:
                 m = conns.get(r["conn"])
@@ -1225,6 +1313,16 @@ def _run_part2(scn, ch, log):
             "p2_handler_cancelled": int(any(r["out"] == "cancelled" for r in recs)),
             "p2_cancelled_at_2T": int(bb is not None and any(r["out"] == "cancelled" and r["t1"] >= bb["cancel_by"] - 1e-6 for r in recs)),
             "p2_payload_cancelled_at_T": int(bb is not None and any(r["out"] == "cancelled" and r["path"] == "/read" for r in recs)),
+            "p2_inflight_completed_during_on_shutdown": int(hd is not None and any(
+                r["out"] == "returned" and r["s0"] <= mk["step"] < r["s1"] and r["t1"] < hd - 1e-6 for r in recs)),
+            "p2_request_queued_behind_inflight_at_shutdown": int(hd is not None and any(
+                m and m["kind"] == "pipe" and any(r["conn"] == ci and r["j"] == 0 and r["s0"] <= mk["step"]
+                                                  and (r["s1"] is None or r["s1"] > mk["step"]) for r in recs)
+                for ci, m in conns.items())),
+            "p2_late_request_after_inflight_ended_in_window": int(hd is not None and any(
+                m and "late_req_at" in m and m["late_req_at"]["t"] < hd and any(
+                    r["conn"] == ci and r["s0"] <= mk["step"] and r["s1"] is not None
+                    and mk["step"] < r["s1"] <= m["late_req_at"]["step"] for r in recs) for ci, m in conns.items())),
             "p2_ws_open_at_shutdown": int(any(conns.get(ci) and conns[ci]["ws"] and s["running"] for ci, s in snap.items())),
             "p2_ws_close_frame_1001": int(any(m and m["cl"].ws_close_code == 1001 for m in conns.values())),
             "p2_late_conn_refused": int(late.get("conn", {}).get("accepted") is False),
